@@ -270,9 +270,11 @@ Fixpoint forM_ {A} (f : A -> res unit) (l : list A) : res unit :=
   | x :: xs => _ <- f x ;; forM_ f xs
   end.
 
-(* [i for i in other.versions if other.minVersion <= i <= other.maxVersion]  (since /repo f81c02a;
-   before: `if maxVersion < (3,4): [i for i in versions if i < (3,4)]`).
-   Comparing a non-tuple with a tuple raises TypeError. *)
+(* lowest = min(other.minVersion, (3, 3));  [i for i in other.versions if lowest <= i <= other.maxVersion]
+   History: before /repo f81c02a `if maxVersion < (3,4): [i for i in versions if i < (3,4)]`; f81c02a clipped
+   at minVersion itself, which made TLS 1.3-only settings (minVersion = (3,4)) non-idempotent and unable to
+   connect; 0b9340a keeps (3,3) for them.  Comparing a non-tuple with a tuple raises TypeError. *)
+Definition clip_lo (c : Z * Z) : Z * Z := if ver_lt (3, 3) c then (3, 3) else c.     (* min(c, (3,3)) *)
 Definition in_range (lo hi : Z * Z) (a b : Z) : bool := ver_le lo (a, b) && ver_le (a, b) hi.
 Fixpoint filter_range (lo hi : Z * Z) (l : list val) : res (list val) :=
   match l with
@@ -425,9 +427,9 @@ Definition checks_A (T : tables) (h : heap) (o : settings) : res unit :=
   sanityCheckProtocolVersions_raises T (sc o).
 
 (* end of _sanityCheckProtocolVersions (always a new list):
-   other.versions = [i for i in other.versions if other.minVersion <= i <= other.maxVersion] *)
+   other.versions = [i for i in other.versions if min(other.minVersion, (3,3)) <= i <= other.maxVersion] *)
 Definition step_versions (h : heap) (o : settings) : res (heap * settings) :=
-  match filter_range (minVersion (sc o)) (maxVersion (sc o)) (G h o F_versions) with
+  match filter_range (clip_lo (minVersion (sc o))) (maxVersion (sc o)) (G h o F_versions) with
   | Ok l => let '(h', p) := halloc h l in Ok (h', set_loc o F_versions p)
   | Err e => Err e
   end.
